@@ -18,14 +18,18 @@ import (
 
 	"github.com/nyaruka/gocommon/httpx"
 	"github.com/nyaruka/gocommon/urns"
+	"github.com/nyaruka/goflow/assets"
+	"github.com/nyaruka/goflow/assets/static"
 	"github.com/nyaruka/goflow/envs"
 	"github.com/nyaruka/goflow/excellent/types"
 	"github.com/nyaruka/goflow/flows"
 	"github.com/nyaruka/goflow/flows/definition"
+	"github.com/nyaruka/goflow/flows/engine"
 	"github.com/nyaruka/goflow/services/airtime/dtone"
 	"github.com/nyaruka/goflow/services/classification/luis"
 	"github.com/nyaruka/goflow/services/classification/wit"
 	gftest "github.com/nyaruka/goflow/test"
+	"github.com/nyaruka/goflow/utils"
 	"github.com/shopspring/decimal"
 
 	"verifharness/pkg/hx"
@@ -372,6 +376,114 @@ func (c *caseGen) dtoneCase() coqCase {
 	return coqCase{fmt.Sprintf("KDtone [%s] %s", strings.Join(shuffled, "; "), impl), amounts, implJ, "dtone"}
 }
 
+// FieldValues.Context: the "__default__" text lists "Name: value" for every field with a value, sort.Strings
+func (c *caseGen) fieldsCase() coqCase {
+	n := c.r.Range(1, 6)
+	keys := []string{"age", "gender", "state_x", "join_date", "score", "nick", "zip", "Age2"}[:0]
+	pool := []string{"age", "gender", "statex", "joined", "score", "nick", "zip", "b2"}
+	perm := c.shuffle(len(pool))
+	var fieldDefs []any
+	names := map[string]string{}
+	for i := 0; i < n; i++ {
+		k := pool[perm[i]]
+		keys = append(keys, k)
+		names[k] = hx.Pick(c.r, []string{"Age", "age", "Zip Code", "Émile", "B", "a", "Score 2", "nick"}) + fmt.Sprint(i)
+		fieldDefs = append(fieldDefs, obj{"uuid": fmt.Sprintf("6d3fd3b4-3a8e-4f5b-8a3a-0000000001%02d", i), "key": k, "name": names[k], "type": "text"})
+	}
+	src, err := static.NewSource(mustJSON(obj{"fields": fieldDefs}))
+	if err != nil {
+		panic(fmt.Sprintf("fields case: %v", err))
+	}
+	env := envs.NewBuilder().Build()
+	sa, err := engine.NewSessionAssets(env, src, nil)
+	if err != nil {
+		panic(fmt.Sprintf("fields case: %v", err))
+	}
+	values := map[string]*flows.Value{}
+	texts := map[string]*string{}
+	for _, k := range keys {
+		if c.r.Chance(3, 4) {
+			t := hx.Pick(c.r, []string{"x", "X", "10", "9", "été", "a b", "Zed"})
+			values[k] = flows.NewValue(types.NewXText(t), nil, nil, "", "", "")
+			texts[k] = &t
+		}
+	}
+	fv := flows.NewFieldValues(sa, values, func(assets.Reference, error) {})
+	impl := fv.Context(env)["__default__"].(*types.XText).Native()
+	sh := c.shuffle(len(keys))
+	parts := make([]string, len(keys))
+	for i, j := range sh {
+		k := keys[j]
+		parts[i] = fmt.Sprintf("(%s, (%s, %s))", hx.Str(k), hx.Str(names[k]), hx.Opt(texts[k], hx.Str))
+	}
+	return coqCase{fmt.Sprintf("KFields [%s] %s", strings.Join(parts, "; "), hx.Str(impl)), names, impl, "fields"}
+}
+
+// @legacy_extra after the session was re-read: results in key order, stably re-sorted by creation time, later
+// extras overwrite earlier ones.  The result names are chosen so that key order and execution order differ.
+func (c *caseGen) legacyCase() coqCase {
+	g := &gen{r: c.r.Fork("legacy")}
+	f := newFlowB(g, "Legacy corr")
+	fixed := c.r.Bool()
+	k := c.r.Range(2, 3)
+	letters := []string{"C", "A", "B"}
+	perm := c.shuffle(3)
+	mocks := map[string][]*httpx.MockResponse{}
+	acts := []any{}
+	var entries []string
+	for i := 0; i < k; i++ {
+		name := "Hook " + letters[perm[i]]
+		url := fmt.Sprintf("http://example.com/h%d", i)
+		mocks[url] = []*httpx.MockResponse{httpx.NewMockResponse(200, nil, []byte(fmt.Sprintf(`{"shared":"from-%d","own%d":"v%d"}`, i, i, i)))}
+		acts = append(acts, obj{"uuid": g.uuid(), "type": "call_webhook", "method": "GET", "url": url, "result_name": name})
+		created := i + 1
+		if fixed {
+			created = 0
+		}
+		entries = append(entries, fmt.Sprintf("(%s, (%s, [(%s, %s); (%s, %s)]))", hx.Str(utils.Snakify(name)), hx.N(created),
+			hx.Str("shared"), hx.Str(fmt.Sprintf("from-%d", i)), hx.Str(fmt.Sprintf("own%d", i)), hx.Str(fmt.Sprintf("v%d", i))))
+	}
+	f.addNode(acts, nil, 1)
+	r, _, ne := f.switchRouter("@input.text", [][2]any{{"has_any_word", []string{"yes"}}}, true, "Answer")
+	f.addRouterNode([]any{}, r, ne)
+	f.addNode([]any{obj{"uuid": g.uuid(), "type": "send_msg", "text": "[@legacy_extra.shared]"}}, nil, 1)
+	def := f.finish()
+	assetsObj, _ := stdAssets(g, []any{def}, 0, nil, obj{})
+	trigger := obj{"type": "manual", "triggered_on": "2024-01-01T00:00:00.000000000-00:00", "environment": envJSON,
+		"flow": obj{"uuid": f.uuid, "name": f.name}, "contact": contactJSON(g, map[string]string{}, nil)}
+	p := &engineParams{Feature: "legacy-corr", Assets: mustJSON(assetsObj), Trigger: mustJSON(trigger), Mocks: mocks, FixedClock: fixed, Reread: true, Resumes: []string{"yes"}}
+	outs, err := runEngine(p)
+	if err != nil {
+		panic(fmt.Sprintf("legacy case: %v", err))
+	}
+	var evs []struct {
+		Type string `json:"type"`
+		Msg  struct {
+			Text string `json:"text"`
+		} `json:"msg"`
+	}
+	json.Unmarshal(outs["sprint1.events"], &evs)
+	impl := "None"
+	var implJ any
+	for _, e := range evs {
+		if e.Type == "msg_created" && strings.HasPrefix(e.Msg.Text, "[") {
+			t := strings.TrimSuffix(strings.TrimPrefix(e.Msg.Text, "["), "]")
+			impl = fmt.Sprintf("(Some %s)", hx.Str(t))
+			implJ = t
+		}
+	}
+	if implJ == nil {
+		panic("legacy case: the flow did not send its message: " + string(outs["sprint1.events"]))
+	}
+	sh := c.shuffle(len(entries))
+	shuffled := make([]string, len(entries))
+	for i, j := range sh {
+		shuffled[i] = entries[j]
+	}
+	return coqCase{fmt.Sprintf("KLegacy [%s] %s %s", strings.Join(shuffled, "; "), hx.Str("shared"), impl),
+		map[string]any{"fixed_clock": fixed, "results": entries}, implJ, "legacy"}
+}
+
 func writeCases(o *hx.Opts, res *hx.Result) {
 	if o.Replay != "" {
 		return
@@ -385,7 +497,8 @@ func writeCases(o *hx.Opts, res *hx.Result) {
 		perKind = 150
 	}
 	c := &caseGen{r: hx.NewRand(o.Seed).Fork("corr-cases")}
-	gens := []func() coqCase{c.propsCase, c.marshalCase, c.getCase, c.formatCase, c.languagesCase, c.luisCase, c.witCase, c.dtoneCase}
+	gens := []func() coqCase{c.propsCase, c.marshalCase, c.getCase, c.formatCase, c.languagesCase, c.luisCase, c.witCase, c.dtoneCase,
+		c.fieldsCase, c.legacyCase}
 	var all []coqCase
 	for i := 0; i < perKind; i++ {
 		for _, g := range gens {
